@@ -7,7 +7,8 @@
 From Coq Require Import Permutation.
 From TauModel Require Import Base Num Oracles Syntax Value Yaml Pratt ParseMap Solver Rule Keys Optimiser Known.
 From TauModel Require Scope Scope2.
-From TauProofs Require C01 C01_matrix_quant.
+From TauModel Require Order.
+From TauProofs Require C01 C01_matrix C01_matrix_quant C01_scope3.
 
 (* follows the recursion of `matrix`: at every quantifier it meets, the shake_1 run on the operand
    (on each member of a group operand) is safe at the polarity of that position *)
@@ -54,3 +55,26 @@ Theorem scope_quant_all_sound : forall o ic ord sw y r (d : doc),
 Proof. exact C01_matrix_quant.scope_quant_all_sound. Qed.
 Check scope_quant_all_sound.
 Print Assumptions scope_quant_all_sound.
+
+(* stronger where it applies: exactness without multi-cell rows, quantifier operands safe at
+   negative polarity *)
+Theorem matrix_exact_quant : forall o ord fuel e e' (d : doc),
+  (forall l, Permutation (ord l) l) ->
+  wf_body e = true -> C01.cmp_leaves e = true ->
+  Scope.cmp_reads e = true -> match_safe ord true fuel e = true ->
+  C01_matrix.no_multi_cell ord e = true ->
+  matrix ord fuel e = Ok e' ->
+  solve_body o e' (pure_doc d) = solve_body o e (pure_doc d).
+Proof. exact C01_matrix_quant.matrix_exact_quant. Qed.
+Check matrix_exact_quant.
+Print Assumptions matrix_exact_quant.
+
+(* the scope as defined in Model/Scope2.v (what the runner evaluates), at the crate's own map order *)
+Theorem crate_order_scope_quant_all_sound : forall o ic sw y r (d : doc),
+  C01.H_strip o ->
+  load_rule o ic y = Ok r -> r_optimised r = false ->
+  Scope2.c01_scope_quant_all o Order.rust_ord sw (r_det r) = true ->
+  exists r', optimise o Order.rust_ord sw r = Ok r' /\ matches o r' d = matches o r d.
+Proof. exact C01_scope3.crate_order_scope_quant_all_sound. Qed.
+Check crate_order_scope_quant_all_sound.
+Print Assumptions crate_order_scope_quant_all_sound.
